@@ -2400,6 +2400,7 @@ lys_compile_node_uniqness(struct lysc_ctx *ctx, const struct lysc_node *parent, 
     const struct lysc_node *iter, *iter2, *dup = NULL;
     const struct lysc_node_action *actions;
     const struct lysc_node_notif *notifs;
+    const struct lysc_module *top_modc = ctx->cur_mod->compiled;
     uint32_t getnext_flags;
     struct ly_set parent_choices = {0};
     const char *node_type_str = "data definition/RPC/action/notification";
@@ -2430,6 +2431,10 @@ lys_compile_node_uniqness(struct lysc_ctx *ctx, const struct lysc_node *parent, 
         /* but remember the choice nodes on the parents path to avoid believe they collide with our node */
         iter = lysc_data_parent(parent);
         do {
+            if (!parent->parent) {
+                /* top-level choice, its module owns the top-level nodes (we may be an augment from another module) */
+                top_modc = parent->module->compiled;
+            }
             parent = parent->parent;
             if (parent && (parent->nodetype == LYS_CHOICE)) {
                 ly_set_add(&parent_choices, (void *)parent, 1, NULL);
@@ -2468,7 +2473,7 @@ lys_compile_node_uniqness(struct lysc_ctx *ctx, const struct lysc_node *parent, 
             }
         }
     } else {
-        while ((iter = lys_getnext(iter, parent, ctx->cur_mod->compiled, getnext_flags))) {
+        while ((iter = lys_getnext(iter, parent, top_modc, getnext_flags))) {
             if (!ly_set_contains(&parent_choices, (void *)iter, NULL) && CHECK_NODE(iter, exclude, name)) {
                 dup = iter;
                 goto cleanup;
@@ -2486,7 +2491,7 @@ lys_compile_node_uniqness(struct lysc_ctx *ctx, const struct lysc_node *parent, 
             }
         }
 
-        actions = parent ? lysc_node_actions(parent) : ctx->cur_mod->compiled->rpcs;
+        actions = parent ? lysc_node_actions(parent) : top_modc->rpcs;
         LY_LIST_FOR((struct lysc_node *)actions, iter) {
             if (CHECK_NODE(iter, exclude, name)) {
                 dup = iter;
@@ -2494,7 +2499,7 @@ lys_compile_node_uniqness(struct lysc_ctx *ctx, const struct lysc_node *parent, 
             }
         }
 
-        notifs = parent ? lysc_node_notifs(parent) : ctx->cur_mod->compiled->notifs;
+        notifs = parent ? lysc_node_notifs(parent) : top_modc->notifs;
         LY_LIST_FOR((struct lysc_node *)notifs, iter) {
             if (CHECK_NODE(iter, exclude, name)) {
                 dup = iter;
